@@ -19,6 +19,8 @@ for name in sorted(mx):
     rep = "; ".join("%s: %s" % (p, ", ".join(sorted({k.split("|")[0] for k in ks}))) for p, ks in sorted(fired.items())) or "**not detected**"
     if meta.get("superseded"):
         rep = "superseded: no longer a breaking change on the repaired tree (see seeded/%s/SUPERSEDED.md)" % name
+    if not fired and os.path.exists(os.path.join(V, "seeded", name, "DECLINED.md")):
+        rep = "**not detected - declined** (see seeded/%s/DECLINED.md and section 12.3)" % name
     ml.append("| %s | %s | %s | %s |" % (name, name[:3], needs, rep))
 seeds_md = "\n".join(ml)
 p = os.path.join(V, "DESIGN.md")
